@@ -264,6 +264,14 @@ def copy_kwargs(kind, name, orig):
 
         tgt = magpy.Collection() if name == "parent_empty" else magpy.Collection(magpy.Sensor())
         return {"parent": tgt, "position": (7, 8, 9)}, {"position": (7, 8, 9)}, []
+    if name == "bad_with_parent":   # the copy is asked into another collection AND carries a keyword that is rejected
+        import magpylib as magpy
+
+        tgt = magpy.Collection(magpy.Sensor())
+        return {"parent": tgt, "position": "bad"}, {}, []
+    if name == "empty_label":       # an object whose label is the empty string
+        orig.style.label = ""
+        return {}, {}, []
     if name in REJECTED_KW:
         return dict(REJECTED_KW[name]), {}, []
     if name == "bad_uncopyable":  # something inside the object cannot be deep-copied: copy() raises
@@ -278,8 +286,8 @@ REJECTED_KW = {"bad_position": {"position": (1, 2)}, "bad_orientation": {"orient
 
 COPY_KW = ["none", "position", "position_ndarray", "position_from_getter", "orientation", "orientation_none", "position+orientation",
            "orientation+position", "pospath+oripath", "excitation_ndarray",
-           "geometry_ndarray", "geometry_from_getter", "style_label", "style_color", "style_dict", "parent_empty", "parent_nonempty"]
-COPY_KW_REJECTED = list(REJECTED_KW) + ["bad_uncopyable"]
+           "geometry_ndarray", "geometry_from_getter", "style_label", "style_color", "style_dict", "parent_empty", "parent_nonempty", "empty_label"]
+COPY_KW_REJECTED = list(REJECTED_KW) + ["bad_uncopyable", "bad_with_parent"]
 
 
 # ------------------------------------------------------------------ mutations
@@ -422,7 +430,7 @@ def run_case(case):
     if ck is None:
         return {"skipped": True, "problems": []}
     kw, expect, arrs = ck
-    if kwname == "bad_uncopyable":
+    if kwname in ("bad_uncopyable", "empty_label"):
         copy_kwargs(kind, kwname, twin)
     materialise(twin, twin_parent)
     sig_twin = deep_sig(twin)
@@ -441,6 +449,10 @@ def run_case(case):
             outcome = type(e).__name__
         if parent is not None and (orig._parent is not parent or sum(1 for c in parent._children if c is orig) != 1):
             problems.append("failed copy broke the original's parent link")
+        if "parent" in kw:
+            tgt = kw["parent"]
+            if len(tgt._children) != 1 or forest_ok(tgt):
+                problems.append(f"failed copy left something in the requested parent: {len(tgt._children)} children instead of 1")
         materialise(orig, parent)
         if deep_sig(orig) != sig_twin:
             problems.append("failed copy changed the original")
